@@ -1244,6 +1244,7 @@ impl Server {
         let mut results = Vec::new();
         let mut db_index = db_index;
         let mut pushed_keys: Vec<(usize, Vec<u8>)> = Vec::new();
+        let mut swept_dbs: Vec<usize> = Vec::new();
         for cmd_parts in commands_to_execute.iter() {
             let is_select = matches!(cmd_parts.first(), Some(RespFrame::BulkString(Some(name)))
                 if String::from_utf8_lossy(name).to_uppercase() == "SELECT");
@@ -1259,6 +1260,9 @@ impl Server {
                     if name == "LPUSH" || name == "RPUSH" {
                         pushed_keys.push((db_index, key.as_ref().clone()));
                     }
+                    if matches!(name.as_str(), "EVAL" | "EVALSHA" | "RENAME" | "RENAMENX") && !swept_dbs.contains(&db_index) {
+                        swept_dbs.push(db_index);
+                    }
                 }
                 self.process_command_parts(&cmd_parts, db_index)
             };
@@ -1273,6 +1277,11 @@ impl Server {
         // The transaction is over: serve the clients blocked on the keys it pushed to
         for (db, key) in pushed_keys {
             self.serve_key(db, &key);
+        }
+        for db in swept_dbs {
+            for key in self.blocking_manager.blocked_keys(db) {
+                self.serve_key(db, &key);
+            }
         }
         
         Ok(RespFrame::Array(Some(results)))
@@ -1696,6 +1705,15 @@ impl Server {
             if let Err(e) = self.process_wakeups() {
                 eprintln!("Error processing wake-ups: {}", e);
                 break;
+            }
+        }
+        
+        // A list can also appear or grow under a key with blocked clients without passing through the
+        // LPUSH/RPUSH arms (a script, RENAME): once the command - the whole script - is over, serve every
+        // key of this database that has both a waiter and an element. Inside EXEC this is left to handle_exec
+        if conn_id != 0 && matches!(command_name.as_str(), "EVAL" | "EVALSHA" | "RENAME" | "RENAMENX") {
+            for key in self.blocking_manager.blocked_keys(db) {
+                self.serve_key(db, &key);
             }
         }
         
